@@ -146,6 +146,17 @@ impl PartialEq<&str> for Txt {
     }
 }
 
+/// Canonical cell text for comparison: a cell holding a single character is compared exactly
+/// (the character drawn is the character stored); a base with combining marks is compared
+/// under NFC, because appending a mark is allowed to renormalise the cell.
+pub fn canonical(s: &str) -> Txt {
+    if s.is_ascii() || s.chars().nth(1).is_none() {
+        s.into()
+    } else {
+        s.nfc().collect::<String>().into()
+    }
+}
+
 #[derive(Clone, PartialEq, Eq, Hash, Debug)]
 pub struct Cell {
     /// cell text, NFC-normalised
@@ -179,11 +190,11 @@ impl Cell {
         if c.blink {
             flags |= BLINK;
         }
-        let data: Txt = if c.data.is_ascii() { c.data.as_str().into() } else { c.data.nfc().collect::<String>().into() };
+        let data: Txt = canonical(&c.data);
         Cell { data, fg: Col::of(&c.fg), bg: Col::of(&c.bg), flags }
     }
     pub fn with_data(&self, data: &str) -> Cell {
-        Cell { data: data.into(), fg: self.fg, bg: self.bg, flags: self.flags }
+        Cell { data: canonical(data), fg: self.fg, bg: self.bg, flags: self.flags }
     }
     pub fn short(&self) -> String {
         let mut s = format!("{:?}", self.data);
